@@ -55,6 +55,7 @@ func init() {
 			{ID: "C01-R27", Title: "the partial flag is for call stages only", Floor: 1, Run: thePartialFlagIsForCallStagesOnly},
 			{ID: "C01-R28", Title: "no ordering by integer subtraction (shared with C15-R4)", Floor: 8, Run: c15r4},
 			{ID: "C01-R29", Title: "literals are assembled in source order", Floor: 3, Run: literalsAreAssembledInSourceOrder},
+			{ID: "C01-R30", Title: "nodes are not built on the token before without a look at it (shared with C20-R24)", Floor: 1, Run: nodesAreNotBuiltOnTheTokenBefore},
 		},
 	})
 }
